@@ -413,9 +413,21 @@ pub fn lin_case(p: LinParams) -> BoxedStrategy<LinCase> {
             } else {
                 Just(0.0).boxed()
             };
-            (vars, rows, proptest::collection::vec(c(), nv), offset, sense)
+            (
+                vars,
+                rows,
+                proptest::collection::vec(c(), nv),
+                offset,
+                sense,
+                // feasibility bias: a witness point and per-row slacks; applied to ~2/3 of the models
+                (
+                    prop_oneof![2 => Just(true), 1 => Just(false)],
+                    proptest::collection::vec(-3i32..=3, nv),
+                    proptest::collection::vec(0i32..=3, nr),
+                ),
+            )
         })
-        .prop_map(|(mut vars, mut rows, obj, offset, sense)| {
+        .prop_map(|(mut vars, mut rows, obj, offset, sense, (bias, witness, slacks))| {
             // de-duplicate variable names (rooc's LinearModel API assumes unique names)
             let mut seen = std::collections::BTreeSet::new();
             for (i, v) in vars.iter_mut().enumerate() {
@@ -435,6 +447,26 @@ pub fn lin_case(p: LinParams) -> BoxedStrategy<LinCase> {
                     } else {
                         rows[i].rhs = 0.0;
                     }
+                }
+            }
+            if bias {
+                // clamp the witness into each domain, then move right-hand sides so that it satisfies
+                // every row (with a little slack): most models become feasible, rows stay arbitrary
+                let w: Vec<f64> = vars
+                    .iter()
+                    .zip(&witness)
+                    .map(|((_, d), w)| {
+                        let (lo, hi) = d.bounds_f64();
+                        (*w as f64).max(lo).min(hi)
+                    })
+                    .collect();
+                for (r, s) in rows.iter_mut().zip(&slacks) {
+                    let lhs: f64 = r.coef.iter().zip(&w).map(|(c, v)| c * v).sum();
+                    r.rhs = match r.rel {
+                        R::Le => lhs + *s as f64,
+                        R::Ge => lhs - *s as f64,
+                        R::Eq => lhs,
+                    };
                 }
             }
             LinCase {
